@@ -83,7 +83,7 @@ func (g *gen) anyAddr(self *model.C16Addr) model.C16Addr {
 }
 
 func (g *gen) value() uint64 {
-	switch pick(g.r, 58, 35, 7) {
+	switch pick(g.r, 58, 38, 4) {
 	case 0:
 		return 0
 	case 1:
@@ -193,7 +193,7 @@ func (g *gen) frame(depth int, host int, ctx *model.C16Addr, static, doomed, isC
 	g.effects(f, nfx(), &seq)
 	for k := 0; k < nkids; k++ {
 		inv := &model.C16Inv{}
-		tk := pick(r, 70, 22, 8)
+		tk := pick(r, 66, 20, 14)
 		if tk == 2 && ncreate == 0 {
 			tk = 0
 		}
@@ -251,6 +251,11 @@ func (g *gen) frame(depth int, host int, ctx *model.C16Addr, static, doomed, isC
 			}
 			// a code-less callee succeeds with any gas; the identity precompile needs some
 			g.gasFor(inv, f.Doomed || (inv.Addr != model.C16Identity && r.Intn(2) == 0), false)
+			if inv.Addr == model.C16Identity && !f.Doomed && r.Intn(3) == 0 {
+				// a precompile "frame" that fails for lack of gas (15 needed): with value 0 the callee gets
+				// exactly this, with value the 2300 stipend on top
+				inv.GasMode, inv.GasConst = model.C16GConst, []uint64{1, 7, 14}[r.Intn(3)]
+			}
 			if !isCreate {
 				g.plainInv = append(g.plainInv, inv)
 			}
@@ -320,7 +325,7 @@ func genProgram(r *rand.Rand) (*model.C16Program, []preAcct) {
 	// retarget some plain calls to addresses at which a CREATE2 of the program deploys (before or after
 	// this call runs): pre-funding, calling deployed stubs, calling destroyed stubs
 	for _, inv := range g.plainInv {
-		if len(g.create2s) > 0 && r.Intn(3) == 0 {
+		if len(g.create2s) > 0 && r.Intn(2) == 0 {
 			c := g.create2s[r.Intn(len(g.create2s))]
 			inv.Tgt, inv.Of, inv.OfID, inv.Creator, inv.Salt = model.C16TgtCreate2Of, c.node, c.node.ID, c.creator, c.salt
 			if inv.GasMode == model.C16GConst {
